@@ -85,6 +85,11 @@ class Cl:
         return (g + "." + self.label) if self.label else g
 
 
+def select_hints(lines, active):
+    """hint sections: every line stands alone (tagged -> conditional, untagged -> always)"""
+    return [c for c in lines if c.groups is None or active is None or '*' in c.groups or (c.groups & active)]
+
+
 def select(lines, active):
     """keep untagged lines and lines with an active group; an untagged line directly following a dropped tagged line
     (continuation of that clause) is dropped too"""
@@ -272,7 +277,7 @@ def splice_fn(it_spec, item, contract, unit, em, extraction, active=None):
     if it_spec.get("sig_prefix"):
         sig = it_spec["sig_prefix"] + " " + sig.lstrip()
     # ---- body
-    body = src_body
+    body = src_body if not it_spec.get("assumed") else "{ unimplemented!() }"
     body = drop_use_stmts(body)
     log = []
     body = apply_rules(body, it_spec.get("pre_body_rules", []))
@@ -301,12 +306,37 @@ def splice_fn(it_spec, item, contract, unit, em, extraction, active=None):
             em.add("    " + c.text.rstrip(), item=key, part="sigtail", origin=c.origin)
     # loops: splice from the last to the first so offsets stay valid
     body = splice_loops(body, contract, key, active)
-    ex = select(contract.get("exit"), active) if contract is not None else []
+    if contract is not None:
+        for sec in list(contract.sections):
+            m = re.match(r"after /(.*)/$", sec)
+            if not m:
+                continue
+            hint = select_hints(contract.get(sec), active)
+            if not hint:
+                continue
+            mm_ = re.search(m.group(1), body)
+            if not mm_:
+                raise Unsupported("lost anchor: %s @after /%s/" % (key, m.group(1)))
+            # end of the statement: next ';' at bracket depth 0 relative to the match start
+            depth, i = 0, mm_.start()
+            while i < len(body):
+                c = body[i]
+                if c in "([{":
+                    depth += 1
+                elif c in ")]}":
+                    depth -= 1
+                elif c == ";" and depth <= 0:
+                    break
+                i += 1
+            if i >= len(body):
+                raise Unsupported("lost anchor: %s @after /%s/ (no statement end)" % (key, m.group(1)))
+            body = body[:i + 1] + "\n" + "\n".join("/*@hint after*/ " + c.text for c in hint) + "\n" + body[i + 1:]
+    ex = select_hints(contract.get("exit"), active) if contract is not None else []
     if ex:
         i = body.rstrip().rfind("}")
         body = body[:i] + "\n" + "\n".join("/*@hint exit*/ " + c.text for c in ex) + "\n" + body[i:]
     # entry
-    entry = select(contract.get("entry"), active) if contract is not None else []
+    entry = select_hints(contract.get("entry"), active) if contract is not None else []
     if entry:
         etxt = "\n".join("/*@entry*/ " + c.text for c in entry)
         body = "{\n" + etxt + "\n" + body.lstrip()[1:]
@@ -378,7 +408,7 @@ def splice_loops(body, contract, key, active=None):
             ins.append((ob, "\n/*@loop %d*/\n" % n + loop_clause_text(inv) + "\n/*@endloop*/\n"))
         for sec, off, nm in (("loopend", cb, "loopend"), ("afterloop", cb + 1, "afterloop"), ("beforeloop", kw, "beforeloop"),
                              ("loopstart", ob + 1, "loopstart")):
-            le = select(contract.get("%s %d" % (sec, n)), active)
+            le = select_hints(contract.get("%s %d" % (sec, n)), active)
             if le:
                 ins.append((off, "\n" + "\n".join("/*@hint %s%d*/ %s" % (nm, n, c.text) for c in le) + "\n"))
     for off, txt in sorted(ins, key=lambda x: -x[0]):
